@@ -183,6 +183,35 @@ PROPS["C08"] = dict(
          "expression engine, solvers, pyvc.  Known findings F3 and F8 (see known_findings.json).",
 )
 
+PROPS["C09"] = dict(
+    modules=["contracts.C10_dispatch", "contracts.C08_claims", "contracts.C09_invariants", "contracts.C09_bounded"],
+    decided=["Node.detach, Node.reattach and Trellis.create (new node, re-created node with its former products detached "
+             "in a loop) preserve, for every node: detached iff no creator or detached creator; creator rows exist; the "
+             "root is its own attached creator and no other node creates itself; a file is no creator; an UNDECLARED "
+             "file is detached", "Node.reattach never meets an attached old creator (its ConsistencyError is unreachable "
+             "from a well-formed graph)", "Node.add_source inserts an edge only if the sink does not reach the source, "
+             "unless the caller vouches for it", "_HASH_TRANSITIONS (complete enumeration): role preserved, hashed states "
+             "only with a known hash, new state a function of (cause, role, hash known)", "CHECK constraints and aborting "
+             "triggers the invariants lean on are present with the expected conditions"],
+    undecided=["'after every committed change, for any sequence': decided for the listed functions only; the other mutating "
+               "functions (delete_detached, reset_for_rerun, mark_completed, update_file_hashes, register_static_tree's "
+               "handover) and the composition are covered by the bounded stand-in", "equivalence of the local form of "
+               "'detached' with reachability from the root needs well-founded creator chains (observed by the bounded "
+               "stand-in, checked by the code's own _check_consistency)", "'no internal error for any request': bounded only"],
+    assumptions=["relational reading of SQLite statements (contracts/graphdb.py)", "the recursive statements compute the "
+                 "closures they are named after (texts pinned in specs/sql)", "creators are attached steps or None in "
+                 "Trellis.create"],
+    level="Inductive invariants over the relational ghost view: each of the three functions that write creator links is "
+          "executed symbolically with its UPDATE / INSERT statements read into per-column versions of the tables, the "
+          "recursive flag propagation as an assumed closure, and the invariant as a universally quantified pre- and "
+          "postcondition (the loop of Trellis.create carries it with the products of the re-created node exempt).  "
+          "Finite tables and schema texts are enumerated.  Whole histories are a bounded stand-in: every sequence of "
+          "nine director-level operations up to length 4 (quick) / 6 (thorough) on the real code with the real "
+          "scheduler, checking every committed state.",
+    note="Trusted: SQLite statement, constraint and trigger semantics as read by contracts/graphdb.py, the closure "
+         "statements, graph theory of edge insertion, solvers, pyvc.",
+)
+
 NOT_BUILT = {}
 
 _loaded = False
